@@ -578,6 +578,23 @@ def _tasks(tier: str, seed: int, plans, long_plans):
     return tasks, ptasks, ztasks, skipped, nfun
 
 
+def _warm_up():
+    """Import every (lazily loaded) pharmpy module the workers will need BEFORE forking, so that all workers run the
+    same code even if the tree is edited while the check runs."""
+    import pharmpy.modeling as pm
+
+    for key in list(M.CORPUS)[:1] + list(M.SYNTHETIC):
+        try:
+            m = M.build_base(key)
+            pm.get_model_code(pm.add_peripheral_compartment(m))
+            for fmt in ("generic", "nlmixr", "rxode"):
+                pm.convert_model(m, fmt)
+            pm.cleanup_model(m)
+            pm.add_time_after_dose(m)
+        except Exception:
+            pass
+
+
 def main(tier: str, seed: int) -> int:
     global _TIER
     _TIER = tier
@@ -595,6 +612,7 @@ def main(tier: str, seed: int) -> int:
 
     t0 = time.time()
     syn = M.write_synthetic(core.scratch(f"c06syn{_RUN}"))
+    _warm_up()
     box: dict = {}
     th = threading.Thread(target=_explore, args=(tier, v, box))
     th.start()
